@@ -11,6 +11,8 @@ import (
 	"encoding/json"
 	"fmt"
 	"math"
+	"runtime"
+	"runtime/debug"
 	"sort"
 	"testing"
 	"time"
@@ -21,7 +23,14 @@ import (
 
 const universe = 24
 
-func key(i int) []byte { return []byte(fmt.Sprintf("key-%02d", i)) }
+var keys = func() (out [universe][]byte) {
+	for i := range out {
+		out[i] = []byte(fmt.Sprintf("key-%02d", i))
+	}
+	return
+}()
+
+func key(i int) []byte { return keys[i] }
 
 // ladderKey is the i-th key of deterministic key family fam.
 func ladderKey(fam, i int) []byte {
@@ -552,6 +561,10 @@ func run(c *vlib.Ctx) {
 		return false
 	}
 
+	if c.NShards > 1 {
+		runtime.GOMAXPROCS(2)
+	}
+	debug.SetGCPercent(400)
 	t0 := time.Now()
 	lap := func(what string) { c.Logf("shard %d: %s done at %.1fs", c.Shard, what, time.Since(t0).Seconds()) }
 	ps := []uint8{4}
@@ -614,6 +627,7 @@ func run(c *vlib.Ctx) {
 		}
 	}
 	lap("triples")
+	defer lap("ladders")
 	// ladders: one unit of work per (p, key family)
 	for p := uint8(4); p <= 18; p++ {
 		for fam := 0; fam < 2; fam++ {
@@ -621,7 +635,6 @@ func run(c *vlib.Ctx) {
 			if !c.Mine(idx) {
 				continue
 			}
-			defer lap(fmt.Sprintf("ladder p=%d fam=%d", p, fam))
 			ladder(p, fam, 3<<p, c.Thorough(), func(n int, v *V, o string) bool {
 				c.Eval(1)
 				if v != nil {
